@@ -189,6 +189,73 @@ def run_sens(case, ctx):
         ctx.nontrivial()
 
 
+# ---------------------------------------------------------------- interleavings on one table: table reads, column reads, writes
+@st.composite
+def interleave_case(draw, tier="quick"):
+    k = draw(st.integers(1, 3))
+    n = draw(st.integers(1, 4))
+    kinds = [draw(st.sampled_from(["int", "date", "bigint", "str"])) for _ in range(k)]
+    el = {"int": st.integers(-5, 5), "date": V.dates, "bigint": st.sampled_from([2 ** 53 + 1, 2 ** 60 + 3, 7]), "str": V.simple_strs}
+    cols = [draw(st.lists(el[kd], min_size=n, max_size=n)) for kd in kinds]
+    newv = {"int": st.one_of(st.integers(-5, 5), st.sampled_from([2.5, None])), "date": st.one_of(V.dates, V.datetimes, st.none()),
+            "bigint": st.sampled_from([0.5, 3, 2 ** 53 + 2]), "str": st.one_of(V.simple_strs, st.none())}
+    steps = []
+    for _ in range(draw(st.integers(2, 10))):
+        op = draw(st.sampled_from(["table_fp", "table_fp", "col_fp", "write_view", "write_view", "write_item", "write_attr", "write_slice"]))
+        j = draw(st.integers(0, k - 1))
+        steps.append((op, j, draw(st.integers(0, n - 1)), draw(newv[kinds[j]])))
+    return {"kinds": kinds, "cols": cols, "steps": steps}
+
+
+def run_interleave(case, ctx):
+    cols = case["cols"]
+    t = R.build_table([(f"c{j}", list(c)) for j, c in enumerate(cols)])
+    read_before_write = False
+    reads = writes = 0
+    for op, j, i, x in case["steps"]:
+        try:
+            if op == "table_fp":
+                ctx.ev()
+                got, want = t.fingerprint(), fresh_fp(t)
+                if got != want:
+                    return ctx.fail("stale/table/interleaving", f"after steps up to {op}: contents {W.snap(t)[3]} fingerprint {got}, fresh build {want}; case {case['steps']}")
+                reads += 1
+                if writes:
+                    read_before_write = True
+            elif op == "col_fp":
+                ctx.ev()
+                c = t.cols()[j]
+                if c.fingerprint() != S.Vector(list(c)).fingerprint():
+                    return ctx.fail("stale/vector/interleaving-column", f"column {list(c)}; case {case['steps']}")
+            elif op == "write_view":
+                t.cols()[j][i] = x
+                writes += 1
+            elif op == "write_slice":
+                t.cols()[j][i:] = x
+                writes += 1
+            elif op == "write_item":
+                t[i, f"c{j}"] = x
+                writes += 1
+            else:
+                vals = list(t.cols()[j])
+                vals[i] = x
+                setattr(t, f"c{j}", vals)
+                writes += 1
+        except S.SerifError:
+            continue
+        except (TypeError, ValueError, AttributeError):
+            continue
+    ctx.ev()
+    if t.fingerprint() != fresh_fp(t):
+        return ctx.fail("stale/table/interleaving", f"at end: {W.snap(t)[3]}; case {case['steps']}")
+    for c in t.cols():
+        if c.fingerprint() != S.Vector(list(c)).fingerprint():
+            return ctx.fail("stale/vector/interleaving-column", f"at end: column {list(c)}; case {case['steps']}")
+    if read_before_write:
+        ctx.nontrivial()
+    ctx.label("promotion_candidates", int(any(kd in ("date", "bigint") for kd in case["kinds"])))
+
+
 def parts(tier):
     mx = 30 if tier == "quick" else 60
     extra = ["fingerprint"] * 3 + ["fingerprint_table"] * 8 + ["col_view", "set_int", "tset_cell", "tset_cell", "tset_cell", "attr_assign", "tset_col", "tset_row", "set_slice"]
@@ -196,4 +263,6 @@ def parts(tier):
         Part("histories", run, strategy=lambda t: W.program(max_steps=mx, always=("construct", "view", "write", "read"), extra_ops=extra),
              examples=(3000, 160000), shards=(12, 16), floors={"table_read_then_written": 0.08}),
         Part("sensitivity", run_sens, strategy=lambda t: sens_case(t), examples=(3000, 100000), shards=(4, 16)),
+        Part("table_interleave", run_interleave, strategy=lambda t: interleave_case(t), examples=(3000, 100000), shards=(4, 16),
+             floors={"promotion_candidates": 0.3}),
     ]
